@@ -17,7 +17,7 @@ they may delete from, and weaken those facts at loop entry.  The analysis is a h
 of the property's domain (error-free under the language's rules) is DECIDED by the reference semantics `Spec` in Lean,
 which flags every use outside the domain - such programs are dropped and counted by the harness.
 """
-from sexp import Sym
+from sexp import Sym, NONE as NONE_SYM
 
 # ----------------------------------------------------------------------------------------------- schema
 
@@ -310,11 +310,160 @@ def render_stmt(s, ind=0, up=False):
         return ['%sselect %s %s related by %s%s%s;' % (p, s[1], s[2], render_expr(s[3], up), chain, w)]
     if k == 'call':
         return ['%s%s;' % (p, render_expr(s[1], up))]
+    if k == 'kwcall':
+        # `bridge v = EE::b(..);` / `bridge EE::b(..);` / `transform v = C::op(..);` / `transform h.op(..);`
+        inner = render_stmt(s[2], 0, up)
+        return ['%s%s %s' % (p, s[1], inner[0])]
     raise ValueError(k)
 
 
 def render(prog, up=False):
     return '\n'.join(render_block(prog, 0, up)) + '\n'
+
+
+# ----------------------------------------------------------------------------------------------- the program as a tree
+
+def _S(name, *args):
+    return [Sym(name)] + list(args)
+
+
+def _phrase_sexp(ph):
+    return "'%s'" % ph if ph else ''
+
+
+def expr_sexp(e):
+    """the expression in the wire format of harness/oal_sexp.py, built from the GENERATOR's tree (not from a parse):
+    what the reference semantics is given does not pass through the parser under test"""
+    k = e[0]
+    if k == 'int':
+        if e[1] < 0:
+            return _S('UnaryOperationNode', '-', _S('IntegerNode', '%d' % -e[1]))
+        return _S('IntegerNode', '%d' % e[1])
+    if k == 'str':
+        return _S('StringNode', '"%s"' % e[1])
+    if k == 'bool':
+        return _S('BooleanNode', 'true' if e[1] else 'false')
+    if k == 'var':
+        return _S('VariableAccessNode', e[1])
+    if k == 'selected':
+        return _S('SelectedAccessNode', 'selected')
+    if k == 'self':
+        return _S('SelfAccessNode', 'self')
+    if k == 'param':
+        return _S('ParamAccessNode', e[1])
+    if k == 'attr':
+        return _S('FieldAccessNode', expr_sexp(e[1]), e[2])
+    if k == 'bin':
+        return _S('BinaryOperationNode', expr_sexp(e[2]), e[1], expr_sexp(e[3]))
+    if k == 'un':
+        return _S('UnaryOperationNode', e[1], expr_sexp(e[2]))
+    if k == 'enum':
+        return _S('EnumOrNamedConstantNode', e[1], e[2])
+    if k == 'callf':
+        return _S('FunctionInvocationNode', e[1], _args_sexp(e[2]))
+    if k == 'calln':
+        return _S('ImplicitInvocationNode', e[1], e[2], _args_sexp(e[3]))
+    if k == 'callo':
+        return _S('InstanceInvocationNode', expr_sexp(e[1]), e[2], _args_sexp(e[3]))
+    raise ValueError(k)
+
+
+def _args_sexp(args):
+    return _S('ParameterListNode', *[_S('ParameterNode', n, expr_sexp(x)) for n, x in args])
+
+
+def block_sexp(stmts):
+    return _S('BlockNode', _S('StatementListNode', *[stmt_sexp(s) for s in stmts]))
+
+
+def stmt_sexp(s):
+    k = s[0]
+    if k == 'assign':
+        return _S('AssignmentNode', _S('VariableAccessNode', s[1]), expr_sexp(s[2]))
+    if k == 'setattr':
+        return _S('AssignmentNode', _S('FieldAccessNode', expr_sexp(s[1]), s[2]), expr_sexp(s[3]))
+    if k == 'if':
+        elifs = _S('ElIfListNode', *[_S('ElIfNode', expr_sexp(c), block_sexp(b)) for c, b in s[3]])
+        els = NONE_SYM if s[4] is None else _S('ElseNode', block_sexp(s[4]))
+        return _S('IfNode', expr_sexp(s[1]), block_sexp(s[2]), elifs, els)
+    if k == 'while':
+        return _S('WhileNode', expr_sexp(s[1]), block_sexp(s[2]))
+    if k == 'foreach':
+        return _S('ForEachNode', s[1], s[2], block_sexp(s[3]))
+    if k == 'break':
+        return _S('BreakNode')
+    if k == 'continue':
+        return _S('ContinueNode')
+    if k == 'stop':
+        return _S('ControlNode')
+    if k == 'return':
+        return _S('ReturnNode', NONE_SYM if s[1] is None else expr_sexp(s[1]))
+    if k == 'create':
+        return _S('CreateObjectNoVariableNode', s[2]) if s[1] is None else _S('CreateObjectNode', s[1], s[2])
+    if k == 'delete':
+        return _S('DeleteNode', s[1])
+    if k == 'relate':
+        return _S('RelateNode', s[1], s[2], s[3], _phrase_sexp(s[4]))
+    if k == 'relate_using':
+        return _S('RelateUsingNode', s[1], s[2], s[3], _phrase_sexp(s[4]), s[5])
+    if k == 'unrelate':
+        return _S('UnrelateNode', s[1], s[2], s[3], _phrase_sexp(s[4]))
+    if k == 'unrelate_using':
+        return _S('UnrelateUsingNode', s[1], s[2], s[3], _phrase_sexp(s[4]), s[5])
+    if k == 'select_from':
+        if s[4] is None:
+            return _S('SelectFromNode', s[1], s[2], s[3])
+        return _S('SelectFromWhereNode', s[1], s[2], s[3], expr_sexp(s[4]))
+    if k == 'select_rel':
+        chain = _S('NavigationListNode', *[_S('NavigationStepNode', kl, rel, _phrase_sexp(ph)) for kl, rel, ph in s[4]])
+        if s[5] is None:
+            return _S('SelectRelatedNode', s[1], s[2], expr_sexp(s[3]), chain)
+        return _S('SelectRelatedWhereNode', s[1], s[2], expr_sexp(s[3]), chain, expr_sexp(s[5]))
+    if k == 'call':
+        return _S('InvocationStatementNode', expr_sexp(s[1]))
+    if k == 'kwcall':
+        inner = stmt_sexp(s[2])
+        call = inner[-1]
+        if call[0] == 'ImplicitInvocationNode':
+            call = [Sym('BridgeInvocationNode' if s[1] == 'bridge' else 'ClassInvocationNode')] + call[1:]
+        return inner[:-1] + [call]
+    raise ValueError(k)
+
+
+def tree_sexp(prog):
+    """the whole body: `(BodyNode (BlockNode (StatementListNode …)))`"""
+    return _S('BodyNode', block_sexp(prog))
+
+
+def same_tree(a, b):
+    """equality of two wire trees up to the letter case of keyword-like strings (operators / cardinalities in the
+    spelling of the text; the decoder normalises them)"""
+    from sexp import dumps
+    return dumps(a).lower() == dumps(b).lower()
+
+
+def keyword_calls(prog, rng, is_bridge, prob=0.4):
+    """statements whose whole right-hand side (or the whole statement) is one invocation `NS::name(..)` / `h.op(..)`: some
+    of them in the keyword forms `bridge ..` / `transform ..` (other parser productions, other evaluators of the
+    interpreter: accept_BridgeInvocationNode / accept_ClassInvocationNode)"""
+    out = []
+    for st in prog:
+        k = st[0]
+        if k == 'if':
+            st = ['if', st[1], keyword_calls(st[2], rng, is_bridge, prob),
+                  [[c, keyword_calls(b, rng, is_bridge, prob)] for c, b in st[3]],
+                  None if st[4] is None else keyword_calls(st[4], rng, is_bridge, prob)]
+        elif k == 'while':
+            st = ['while', st[1], keyword_calls(st[2], rng, is_bridge, prob)]
+        elif k == 'foreach':
+            st = ['foreach', st[1], st[2], keyword_calls(st[3], rng, is_bridge, prob)]
+        elif k in ('assign', 'call'):
+            e = st[-1]
+            if isinstance(e, list) and e and e[0] in ('calln', 'callo') and rng.random() < prob:
+                kw = 'transform' if e[0] == 'callo' or not is_bridge(e[1]) else 'bridge'
+                st = ['kwcall', kw, st]
+        out.append(st)
+    return out
 
 
 def count_kinds(prog, stats=None, depth=0):
